@@ -362,7 +362,7 @@ package main
 //@ requires imp(hasT && !prevOK, zvOK(ty))
 
 //@ emits CopyTo when Kind == "Primitive" && !OneOf
-//@ ensures [C03,C06] imp(hasT, len(result) == 0 && has(tf.Attrs, "f") && is(out, $EVT) && !o.Unknown)
+//@ ensures [C03,C06,C08,C09] imp(hasT, len(result) == 0 && has(tf.Attrs, "f") && is(out, $EVT) && !o.Unknown)
 
 // a value that is already present keeps its null-ness (value-held fields only; pointer-backed ones follow the pointer)
 //@ emits CopyTo when Kind == "Primitive" && Ctx == "plain" && !IsNullable
@@ -428,13 +428,13 @@ package main
 //@ requires imp(hasTs, tys != nil)
 //@ requires imp(hasTs && !(old(has(tf.Attrs, "s")) && is(old(tf.Attrs["s"]), types.Int64)), is(first(zvs), types.Int64) && second(zvs) == nil && as(first(zvs), types.Int64).Null && !as(first(zvs), types.Int64).Unknown)
 //@ ensures [C06] imp(!hasT, dhas(result, missingD) && untouched)
-//@ ensures [C07,C03] imp(hasTg, has(tf.Attrs, "g") && is(outg, types.Int64) && !og.Unknown)
+//@ ensures [C07,C03,C08,C09] imp(hasTg, has(tf.Attrs, "g") && is(outg, types.Int64) && !og.Unknown)
 //@ ensures [C07,C20] imp(hasTg && !prevGOK, og.Null == !(gactive && wg.G != 0))
 //@ ensures [C07] imp(hasTg && gactive, og.Value == int64(wg.G))
 
 //@ emits CopyTo when Kind == "Primitive" && OneOf
 //@ ensures [C06] imp(hasT && hasTg && hasTs, len(result) == 0)
-//@ ensures [C07,C03] imp(hasT, has(tf.Attrs, "f") && is(out, $EVT) && !o.Unknown)
+//@ ensures [C07,C03,C08,C09] imp(hasT, has(tf.Attrs, "f") && is(out, $EVT) && !o.Unknown)
 //@ ensures [C07,C19] imp(hasT && factive, same(o.Value, $CastTo(wf.F)))
 
 //@ emits CopyTo when Kind == "Primitive" && OneOf && HasZero
@@ -458,7 +458,7 @@ package main
 //@ ensures [C06] imp(hasT && !isOT, result == dinsert(noDiags, convD) && untouched)
 
 //@ emits CopyTo when Kind == "Object"
-//@ ensures [C03] imp(isOT, has(tf.Attrs, "f") && is(out, types.Object) && !o.Unknown && o.Attrs != nil)
+//@ ensures [C03,C08,C09] imp(isOT, has(tf.Attrs, "f") && is(out, types.Object) && !o.Unknown && o.Attrs != nil)
 //@ ensures [C03] imp(isOT && !prevOK, o.AttrTypes == ot.AttrTypes)
 //@ ensures [C08] imp(isOT && prevOK, o.AttrTypes == prev.AttrTypes && imp(prev.Attrs != nil, o.Attrs == prev.Attrs))
 
@@ -517,7 +517,7 @@ package main
 //@ define o = as(out, $VT)
 //@ define convD = attrWriteConversionFailureDiag{"P.F", "$Type"}
 //@ ensures [C06] imp(hasT && !isCT, result == dinsert(noDiags, convD) && untouched)
-//@ ensures [C03] imp(isCT, has(tf.Attrs, "f") && is(out, $VT) && !o.Unknown)
+//@ ensures [C03,C08,C09] imp(isCT, has(tf.Attrs, "f") && is(out, $VT) && !o.Unknown)
 //@ ensures [C03] imp(isCT && !prevOK, o.ElemType == ct.ElemType)
 //@ ensures [C08] imp(isCT && prevOK, o.ElemType == prev.ElemType)
 
@@ -572,7 +572,7 @@ package main
 
 //@ emits CopyTo when Kind == "PrimitiveList" && Ctx == "plain" && !IsNullable
 //@ invariant[0] imp(done(j0) && inr && !weird, is(c.Elems[j0], $EVT) && !cev.Unknown && same(cev.Value, $CastTo(src[j0])))
-//@ ensures [C03,C19,C09] imp(isCT && inr && !weird, is(el, $EVT) && !ev.Unknown && same(ev.Value, $CastTo(src[j0])))
+//@ ensures [C03,C19,C09,C08] imp(isCT && inr && !weird, is(el, $EVT) && !ev.Unknown && same(ev.Value, $CastTo(src[j0])))
 
 //@ emits CopyTo when Kind == "PrimitiveList" && Ctx == "plain" && !IsNullable && HasZero
 //@ invariant[0] imp(done(j0) && inr && !weird, cev.Null == ($CastTo(src[j0]) == $ZeroValue))
@@ -580,11 +580,11 @@ package main
 
 //@ emits CopyTo when Kind == "PrimitiveList" && Ctx == "plain" && IsNullable
 //@ invariant[0] imp(done(j0) && inr && !weird, is(c.Elems[j0], $EVT) && !cev.Unknown && cev.Null == (src[j0] == nil) && imp(src[j0] != nil, same(cev.Value, $GoElemTypeIndirect(*src[j0]))))
-//@ ensures [C03,C19,C09] imp(isCT && inr && !weird, is(el, $EVT) && !ev.Unknown && ev.Null == (src[j0] == nil) && imp(src[j0] != nil, same(ev.Value, $GoElemTypeIndirect(*src[j0]))))
+//@ ensures [C03,C19,C09,C08] imp(isCT && inr && !weird, is(el, $EVT) && !ev.Unknown && ev.Null == (src[j0] == nil) && imp(src[j0] != nil, same(ev.Value, $GoElemTypeIndirect(*src[j0]))))
 
 //@ emits CopyTo when Kind == "PrimitiveMap" && Ctx == "plain" && !IsNullable
 //@ invariant[0] imp(done(k0) && !weird, is(c.Elems[k0], $EVT) && !cev.Unknown && same(cev.Value, $CastTo(src[k0])))
-//@ ensures [C03,C19,C09] imp(isCT && inr && !weird, is(el, $EVT) && !ev.Unknown && same(ev.Value, $CastTo(src[k0])))
+//@ ensures [C03,C19,C09,C08] imp(isCT && inr && !weird, is(el, $EVT) && !ev.Unknown && same(ev.Value, $CastTo(src[k0])))
 
 //@ emits CopyTo when Kind == "PrimitiveMap" && Ctx == "plain" && !IsNullable && HasZero
 //@ invariant[0] imp(done(k0) && !weird, cev.Null == ($CastTo(src[k0]) == $ZeroValue))
@@ -592,7 +592,7 @@ package main
 
 //@ emits CopyTo when Kind == "PrimitiveMap" && Ctx == "plain" && IsNullable
 //@ invariant[0] imp(done(k0) && !weird, is(c.Elems[k0], $EVT) && !cev.Unknown && cev.Null == (src[k0] == nil) && imp(src[k0] != nil, same(cev.Value, $GoElemTypeIndirect(*src[k0]))))
-//@ ensures [C03,C19,C09] imp(isCT && inr && !weird, is(el, $EVT) && !ev.Unknown && ev.Null == (src[k0] == nil) && imp(src[k0] != nil, same(ev.Value, $GoElemTypeIndirect(*src[k0]))))
+//@ ensures [C03,C19,C09,C08] imp(isCT && inr && !weird, is(el, $EVT) && !ev.Unknown && ev.Null == (src[k0] == nil) && imp(src[k0] != nil, same(ev.Value, $GoElemTypeIndirect(*src[k0]))))
 
 // elements of object collections
 //@ emits CopyTo when Kind == "ObjectList" || Kind == "ObjectMap"
@@ -625,10 +625,10 @@ package main
 //@ invariant[0] imp(dn && !weird && sj != nil, ceo.Attrs != nil && fresh(ceo.Attrs))
 //@ invariant[0] imp(dn && !weird && sj != nil && has(eot.AttrTypes, "x"), has(ceo.Attrs, "x"))
 //@ invariant[0] imp(dn && !weird && sj != nil && has(eot.AttrTypes, "x"), ceo.Attrs["x"] == encX)
-//@ ensures [C03,C09,C02] imp(isCT && inr && !weird, is(el, types.Object) && !eo.Unknown && eo.AttrTypes == eot.AttrTypes && eo.Null == (sj == nil) && imp(sj != nil && has(eot.AttrTypes, "x"), has(eo.Attrs, "x") && eo.Attrs["x"] == encX))
+//@ ensures [C03,C09,C02,C08] imp(isCT && inr && !weird, is(el, types.Object) && !eo.Unknown && eo.AttrTypes == eot.AttrTypes && eo.Null == (sj == nil) && imp(sj != nil && has(eot.AttrTypes, "x"), has(eo.Attrs, "x") && eo.Attrs["x"] == encX))
 
 //@ emits CopyTo when (Kind == "ObjectList" || Kind == "ObjectMap") && Ctx == "plain" && Nested == "marker" && !IsNullable
 //@ invariant[0] imp(dn && !weird, is(cel, types.Object) && !ceo.Unknown && ceo.AttrTypes == eot.AttrTypes && !ceo.Null && ceo.Attrs != nil && fresh(ceo.Attrs))
 //@ invariant[0] imp(dn && !weird && has(eot.AttrTypes, "x"), has(ceo.Attrs, "x"))
 //@ invariant[0] imp(dn && !weird && has(eot.AttrTypes, "x"), ceo.Attrs["x"] == encX)
-//@ ensures [C03,C09,C02] imp(isCT && inr && !weird, is(el, types.Object) && !eo.Unknown && eo.AttrTypes == eot.AttrTypes && !eo.Null && imp(has(eot.AttrTypes, "x"), has(eo.Attrs, "x") && eo.Attrs["x"] == encX))
+//@ ensures [C03,C09,C02,C08] imp(isCT && inr && !weird, is(el, types.Object) && !eo.Unknown && eo.AttrTypes == eot.AttrTypes && !eo.Null && imp(has(eot.AttrTypes, "x"), has(eo.Attrs, "x") && eo.Attrs["x"] == encX))
